@@ -4,7 +4,7 @@ import OpusProofs.LaplaceMain
 import OpusProofs.LaplaceP0
 import OpusProofs.CwrsRanges
 import OpusProofs.CeltAllocAgree
-import OpusProofs.CeltHdrPart1
+import OpusProofs.CeltHdrExample
 /-
   Property C17 — "PVQ, Laplace and table-driven symbol codes are exact, prefix-free bijections".
 
@@ -413,38 +413,105 @@ theorem alloc_enc_dec_agree (p : Opus.CeltAlloc.Inp) (hp : OpusProofs.CeltAlloc.
 
 /-! ## CELT frame header: what the encoder writes, the decoder reads back
 
-  Encoder model `Opus.CeltSymsEnc` (OpusModel/CeltSymsEnc.lean, tied call by call to the real `celt_encode_with_ec`);
-  decoder model `Opus.CeltSyms` (owned by C03); range coder `Opus.RangeCoder` and its round trip (C08).
-  `World`: one packet — a buffer, a legal list of range-coder calls `all`, no coder error.  `P0`: the calls made before
-  the CELT header (nothing for a CELT-only frame, the SILK layer for a hybrid frame).  `Part1 cfg s0`: the states the
-  encoder model goes through (silence flag, post-filter, transient flag, coarse energy) from `s0`. -/
+  Encoder model `Opus.CeltSymsEnc` (OpusModel/CeltSymsEnc.lean, tied call by call to the real `celt_encode_with_ec`:
+  `encHeader cfg s0` runs from function entry to the return of `clt_compute_allocation`; every float-driven decision
+  is popped from the decision stream `s0.ds` exactly where the corresponding symbol is written); decoder model
+  `Opus.CeltSyms.celtHeader` (owned by C03); range coder `Opus.RangeCoder` and its round trip (C08, used at the level
+  of the call list through `decode_encode_prefix`); allocation `Opus.CeltAlloc` (above).
+  `World`: one packet — a buffer, a legal list of range-coder calls `all`, no coder error, final length `w.len`,
+  `w.encAt P` / `w.decAt P` the encoder / decoder (run on the finished bytes) after the calls `P`.  `P0`: the calls
+  made before the CELT header (nothing for a CELT-only frame, the SILK layer and redundancy flag of a hybrid frame). -/
 
-/-- **Header round trip, part 1** (silence flag, post-filter parameters, transient flag, intra flag, coarse energy), for
-    every configuration, every decision stream, every buffer content, every prefix `P0` and every continuation of the
-    packet: if the coder reports no error, the frame is not silent, the final packet length `len` is the size the
-    encoder budgeted with or at least two bytes beyond what the header has used (what the VBR code guarantees:
-    `min_allowed`), the packet is not already full (`tell < 8·len`) and — when the post-filter is on — its tapset
-    symbol fits (`nbAvailableBytes > 12·C`), then C03's `readFlags` and `coarseEnergy` run on the finished packet return
-    exactly the encoder's decisions — with each coarse-energy value as the written symbol means it (after the budget
-    clamps and the Laplace clamp) — and stop in lock-step with the encoder (same `rng`, `ec_tell`, `ec_tell_frac`).
-    The content is that every `tell`-based budget test takes the same branch on both sides, including the tests the
-    decoder makes with a stale `tell`. -/
-theorem celt_header_roundtrip_part1 (w : OpusProofs.CeltHdr.World) (P0 : List Opus.RangeCoder.Op)
+/-- **The CELT header round trip** (non-silent frame).  For every configuration (`start < end ≤ 21`, `C ∈ {1,2}`,
+    `LM ≤ 3`, CBR or VBR, `nbCompressedBytes ≤ 1275` with `enc->storage` equal to it on entry), every decision stream,
+    every buffer content, every prefix `P0` and every continuation of the packet (band data, `ec_enc_done`): if the
+    coder reports no error (that is what a `World` is), nothing shrinks the packet after the header (`w.len = hdr.size`),
+    the final length is the size the encoder budgeted with or leaves the room the VBR code guarantees
+    (`min_allowed`: 16 whole bits beyond the header, and `tell_frac + total_boost + 48 < len·64`), the packet is not
+    already full on entry, the tapset symbol of an active post-filter fits (the decoder's own test, the encoder relies
+    on `nbAvailableBytes > 12·C`), and the stereo decisions are in range (`intensity ≥ start`, `dual_stereo ∈ {0,1}`),
+    then C03's `celtHeader` run on the finished packet returns (`HdrAgree`):
+    silence 0 and exactly the encoder's post-filter parameters, transient and intra flags, coarse energies — each as
+    the written symbol means it, i.e. after the budget clamps and the Laplace clamp, and `-[qi<0]` in the one-bit
+    fall-back — `tf_res[]`, `tf_select`, spread, dynalloc `offsets[]`, `alloc_trim`, `bits` and the anti-collapse
+    reservation; the two coders enter `clt_compute_allocation` with the same `rng`, `ec_tell`, `ec_tell_frac`; the range
+    decoder hands the decoder-side allocation exactly the values the encoder-side allocation coded, so that it
+    returns the same `codedBands`, `balance`, `intensity`, `dual_stereo`, `pulses[]`, `ebits[]`, `fine_priority[]`
+    (`alloc_enc_dec_agree`); and both sides reach the band data with the same `rng`, `ec_tell`, `ec_tell_frac`.
+    The content is that every budget test takes the same branch on both sides: the decoder's tests against `len·8`
+    with a possibly stale `tell`, `tf_decode`'s against `storage·8` minus the `tf_select` reservation, and the dynalloc /
+    trim tests of the decoder against its shrinking `total_bits` versus the encoder's `total_bits − total_boost`. -/
+theorem celt_header_roundtrip (w : OpusProofs.CeltHdr.World) (P0 : List Opus.RangeCoder.Op)
     (cfg : Opus.CeltSymsEnc.EncCfg) (s0 : Opus.CeltSymsEnc.St) (hs0 : s0.ops = []) (he0 : s0.e = w.encAt P0)
-    (p : OpusProofs.CeltHdr.Part1 cfg s0)
-    (hp : w.IsPrefix (P0 ++ p.s4.ops)) (hLM : cfg.LM < 4) (hlen : w.len ≤ p.size1)
-    (hmargin : w.len = p.size1 ∨
-      Opus.RangeCoder.tell (w.encAt (P0 ++ p.s4.ops)) + 16 ≤ ((w.len * 8 : Nat) : Int))
+    (hst0 : s0.e.storage = cfg.size)
+    (hdr : Opus.CeltSymsEnc.EncHdr) (hrun : Opus.CeltSymsEnc.encHeader cfg s0 = .ok hdr) (hsil : hdr.silence = 0)
+    (hp : w.IsPrefix (P0 ++ hdr.ops))
+    (hcfg : cfg.start < cfg.end_ ∧ cfg.end_ ≤ 21 ∧ (cfg.C = 1 ∨ cfg.C = 2) ∧ cfg.LM ≤ 3)
+    (hsz : cfg.size ≤ 1275) (hlen : w.len = hdr.size)
+    (hmargin : w.len = cfg.size ∨
+      (Opus.RangeCoder.tell (w.encAt (P0 ++ hdr.opsHdr)) + 16 ≤ ((w.len * 8 : Nat) : Int) ∧
+       (Opus.RangeCoder.tellFrac (w.encAt (P0 ++ hdr.opsHdr)) : Int) + hdr.totalBoost + 48 < ((w.len * 8 * 8 : Nat) : Int)))
     (hroom : Opus.RangeCoder.tell s0.e < ((w.len * 8 : Nat) : Int))
-    (htap : p.pf.on ≠ 0 → ∀ s' d', OpusProofs.CeltHdr.Here w P0 s' d' → OpusProofs.CeltHdr.Ext s' p.s2 →
-      Opus.RangeCoder.tell s'.e + 2 ≤ ((w.len * 8 : Nat) : Int)) :
-    ∃ (pfD : Opus.CeltSyms.PostFilter) (c5 : Opus.RangeCoder.Dec) (tr : List Opus.CeltSyms.CEv)
-      (c6 : Opus.RangeCoder.Dec) (tr' : List Opus.CeltSyms.CEv),
-      Opus.CeltSyms.readFlags ⟨cfg.start, cfg.end_, cfg.C, cfg.LM⟩ ((w.len * 8 : Nat) : Int) (w.decAt P0) =
-        ((0, pfD, p.isT, p.intra), c5, tr) ∧
-      pfD.on = p.pf.on ∧ pfD.octave = p.pf.octave ∧ pfD.pitch = p.pf.pitch ∧ pfD.qg = p.pf.qg ∧ pfD.tapset = p.pf.tapset ∧
-      Opus.CeltSyms.coarseEnergy ⟨cfg.start, cfg.end_, cfg.C, cfg.LM⟩ p.intra c5 = .ok (p.qds, c6, tr') ∧
-      OpusProofs.CeltHdr.Here w P0 p.s4 c6 :=
-  OpusProofs.CeltHdr.part1_roundtrip w P0 cfg s0 hs0 he0 p hp hLM hlen hmargin hroom htap
+    (htap : hdr.pf.on ≠ 0 →
+      Opus.RangeCoder.tell (w.encAt (P0 ++ hdr.opsPf.dropLast)) + 2 ≤ ((w.len * 8 : Nat) : Int))
+    (hint : (cfg.start : Int) ≤ hdr.allocInp.intensity)
+    (hdual : hdr.allocInp.dualStereo = 0 ∨ hdr.allocInp.dualStereo = 1) :
+    ∃ dh, Opus.CeltSyms.celtHeader ⟨cfg.start, cfg.end_, cfg.C, cfg.LM⟩ w.len (w.decAt P0) = .ok dh ∧
+      OpusProofs.CeltHdr.HdrAgree w P0 cfg hdr dh :=
+  OpusProofs.CeltHdr.header_roundtrip w P0 cfg s0 hs0 he0 hst0 hdr hrun hsil hp hcfg hsz hlen hmargin hroom htap hint hdual
+
+/-- a 2.5 ms mono CBR frame of 24 bytes, 47 coder calls in the header (13 Laplace symbols, a dynalloc boost, an
+    allocation skip flag), evaluated in the kernel: all hypotheses hold -/
+example : ∃ hdr, Opus.CeltSymsEnc.encHeader OpusProofs.CeltHdr.Example.cfg OpusProofs.CeltHdr.Example.s0 = .ok hdr ∧
+    hdr.silence = 0 ∧ OpusProofs.CeltHdr.Example.world.IsPrefix ([] ++ hdr.ops) ∧
+    OpusProofs.CeltHdr.Example.world.len = hdr.size ∧ hdr.ops.length = 47 := by
+  obtain ⟨hdr, h1, _, _, _, h5, h6, _, _, h9, _, _, _, _, _, h15, _⟩ := OpusProofs.CeltHdr.Example.hyps
+  exact ⟨hdr, h1, h5, h6, h9, h15⟩
+
+/-- **The silent frame.**  If the encoder decides on silence (only possible at `ec_tell == 1`, i.e. CELT-only), the
+    finished packet has `2 ≤ len ≤ 1275` and `2 ≤ nbCompressedBytes ≤ 1275`: the header consists of the flag
+    `ec_enc_bit_logp(1, 15)` and nothing but `ec_enc_shrink` calls; C03's `celtHeader` on the packet returns silence 1;
+    after both sides have set `nbits_total` so that `ec_tell` equals their whole budget (the encoder's
+    `nbCompressedBytes·8`, the decoder's `len·8` — these differ in VBR), every later budget test fails on both sides,
+    and both get the same defaults: post-filter off, transient 0, intra 0, coarse energy −1 in every band,
+    `tf_res = tf_select_table[LM][0]`, `tf_select` 0, spread `SPREAD_NORMAL`, no dynalloc boost, trim 5 (`SilentAgree`).
+    (No agreement of the allocation is claimed for silent frames: the two sides' `bits` differ when the VBR code
+    shrinks the packet; both are below one whole bit.) -/
+theorem celt_header_roundtrip_silence (w : OpusProofs.CeltHdr.World) (P0 : List Opus.RangeCoder.Op)
+    (cfg : Opus.CeltSymsEnc.EncCfg) (s0 : Opus.CeltSymsEnc.St) (hs0 : s0.ops = []) (he0 : s0.e = w.encAt P0)
+    (hst0 : s0.e.storage = cfg.size)
+    (hdr : Opus.CeltSymsEnc.EncHdr) (hrun : Opus.CeltSymsEnc.encHeader cfg s0 = .ok hdr) (hsil : hdr.silence ≠ 0)
+    (hp : w.IsPrefix (P0 ++ hdr.ops)) (hsz2 : 2 ≤ cfg.size) (hsz : cfg.size ≤ 1275) (hlen2 : 2 ≤ w.len)
+    (hlen : w.len ≤ 1275) :
+    ∃ dh, Opus.CeltSyms.celtHeader ⟨cfg.start, cfg.end_, cfg.C, cfg.LM⟩ w.len (w.decAt P0) = .ok dh ∧
+      OpusProofs.CeltHdr.SilentAgree cfg hdr dh :=
+  OpusProofs.CeltHdr.silent_roundtrip w P0 cfg s0 hs0 he0 hst0 hdr hrun hsil hp hsz2 hsz hlen2 hlen
+
+/-- a silent 20 ms stereo VBR frame (100 bytes offered, 2 bytes sent), evaluated in the kernel: all hypotheses hold -/
+example : ∃ hdr, Opus.CeltSymsEnc.encHeader OpusProofs.CeltHdr.Example.cfgS OpusProofs.CeltHdr.Example.s0S = .ok hdr ∧
+    hdr.silence ≠ 0 ∧ OpusProofs.CeltHdr.Example.worldS.IsPrefix ([] ++ hdr.ops) ∧
+    2 ≤ OpusProofs.CeltHdr.Example.worldS.len ∧ hdr.ops = [.bitLogp 1 15, .shrink 2, .shrink 2] := by
+  obtain ⟨hdr, h1, _, _, _, h5, h6, _, _, h9, _, h11⟩ := OpusProofs.CeltHdr.Example.hypsS
+  exact ⟨hdr, h1, h5, h6, h9, h11⟩
+
+/-- **Where the encoder's own energy state can leave the decoder's.**  For one band and channel of
+    `quant_coarse_energy_impl` (`encCoarseOne`, `i ≤ end`): the `qi` the encoder keeps for its `oldEBands[]` / `error[]`
+    equals the value the decoder reconstructs from the written symbol in every branch — Laplace, `small_energy_icdf`,
+    one bit, nothing — except exactly one: the one-bit fall-back (`budget − tell == 1`) at the first band
+    (`i == start`, the only band the `bits_left < 16` clamp to `[-1, 1]` skips) with a kept `qi < −1`; the decoder then
+    has −1.  (Observation on the unchanged code, not a violation of a listed property: it desynchronises only the
+    encoder's private prediction state.  Reproduction: a hybrid frame whose SILK part leaves exactly one bit, or a
+    direct call — `harness/c17_hdrenc.c coarse`.) -/
+theorem coarse_state_agrees_except_one_bit_start (cfg : Opus.CeltSymsEnc.EncCfg) (prob : List Nat) (budget : Int)
+    (i : Nat) (s : Opus.CeltSymsEnc.St) (q qd : Int) (s' : Opus.CeltSymsEnc.St) (hi : i ≤ cfg.end_)
+    (h : Opus.CeltSymsEnc.encCoarseOne cfg prob budget i s = .ok (q, qd, s')) :
+    q = qd ∨ (i = cfg.start ∧ budget - Opus.RangeCoder.tell s.e = 1 ∧ q < -1 ∧ qd = -1) :=
+  OpusProofs.CeltHdr.coarse_state_agrees_except_one_bit_start cfg prob budget i s q qd s' hi h
+
+/-- the divergent branch is reachable: first band, one bit left, `qi = −3` is kept, the decoder gets −1 -/
+example : (match Opus.CeltSymsEnc.encCoarseOne
+      { start := 17, end_ := 21, C := 1, LM := 3, vbr := false, lfe := false, size := 10 } [] 2 17
+      { e := Opus.RangeCoder.encInit [] 0, ops := [], ds := [-3] } with
+    | .ok (q, qd, _) => (q, qd) | _ => (0, 0)) = (-3, -1) := by decide +kernel
 
 end OpusProps.C17
